@@ -188,3 +188,20 @@ func (e *HExpr) Eval(row map[string]Val) (res bool, mismatch bool) {
 	}
 	return false, true
 }
+
+// CellVal converts a result cell into a reference value.
+func CellVal(s *string, n *node.Node, p *predicate.Predicate, l *literal.Literal, t *time.Time) Val {
+	switch {
+	case s != nil:
+		return strVal(*s)
+	case n != nil:
+		return nodeVal(n)
+	case p != nil:
+		return predVal(p)
+	case l != nil:
+		return objLit(l)
+	case t != nil:
+		return timeVal(*t)
+	}
+	return Null
+}
